@@ -505,6 +505,102 @@ func (t *tracer) replay(re *process.RuntimeEnvironment, sched [][]int, stepTimeo
 	return -1, ""
 }
 
+// replayPlan drives the real interpreter along a behaviour of the specification: for every action it lets the parked participants
+// through the gate and waits until every process the action says logs an "at" is parked again (or for the first time) and every process
+// it says ends has ended.  Returns the index of the first action the code did not follow (-1 = followed to the end).
+func (t *tracer) replayPlan(plan []PlanStep, stepTimeout time.Duration) (int, string) {
+	find := func(pid []int) *pinfo {
+		for _, pi := range t.order {
+			if eqPid(pi.pid, pid) {
+				return pi
+			}
+		}
+		return nil
+	}
+	waitUntil := func(cond func() bool) bool {
+		deadline := time.Now().Add(stepTimeout)
+		t.mu.Lock()
+		defer t.mu.Unlock()
+		for !cond() {
+			if time.Now().After(deadline) {
+				return false
+			}
+			t.mu.Unlock()
+			time.Sleep(50 * time.Microsecond)
+			t.mu.Lock()
+		}
+		return true
+	}
+	isEnd := func(st PlanStep, pid []int) bool {
+		for _, e := range st.Ends {
+			if eqPid(e, pid) {
+				return true
+			}
+		}
+		return false
+	}
+	for i, st := range plan {
+		// the participants must be parked at their gate
+		before := map[*pinfo]int{}
+		var rel []*pinfo
+		for _, pid := range st.Rel {
+			var pi *pinfo
+			if !waitUntil(func() bool { pi = find(pid); return pi != nil && (pi.parked || pi.ended) }) {
+				return i, "participant never reached its gate"
+			}
+			rel = append(rel, pi)
+		}
+		t.mu.Lock()
+		for _, pid := range st.Done {
+			if pi := find(pid); pi != nil {
+				before[pi] = pi.steps
+			}
+		}
+		for _, pi := range rel {
+			if pi.ended {
+				t.mu.Unlock()
+				return i, "participant already ended"
+			}
+			pi.parked = false
+		}
+		t.mu.Unlock()
+		// the participants that END in this action (senders, forwards) go first and get time to block in their select: a partner that only
+		// polls its control channel (an internal form) takes the control message only if the forward is already waiting
+		for pass := 0; pass < 2; pass++ {
+			for _, pi := range rel {
+				if isEnd(st, pi.pid) == (pass == 0) {
+					pi.gate <- struct{}{}
+					if pass == 0 && len(rel) > 1 {
+						time.Sleep(800 * time.Microsecond)
+					}
+				}
+			}
+		}
+		if st.Fail {
+			// the specification says this action is a run-time error: the process panics (the driver dies with it); give it time
+			time.Sleep(stepTimeout)
+			return i, "the specification's error step did not bring the interpreter down"
+		}
+		for _, pid := range st.Done {
+			pid := pid
+			ok := waitUntil(func() bool {
+				pi := find(pid)
+				if pi == nil {
+					return false
+				}
+				if isEnd(st, pid) {
+					return pi.ended
+				}
+				return pi.parked && pi.steps > before[pi]
+			})
+			if !ok {
+				return i, "action did not complete"
+			}
+		}
+	}
+	return -1, ""
+}
+
 func eqPid(a, b []int) bool {
 	if len(a) != len(b) {
 		return false
@@ -537,8 +633,8 @@ func (t *tracer) collect() ([]Ev, int) {
 }
 
 // execTraced runs the program with the tracer installed; with a schedule it drives the gate.
-func execTraced(t *tracer, re *process.RuntimeEnvironment, procs []*process.Process, sched [][]int, sub *process.SubscriberInfo) (int, string) {
-	if len(sched) == 0 {
+func execTraced(t *tracer, re *process.RuntimeEnvironment, procs []*process.Process, sched [][]int, plan []PlanStep, sub *process.SubscriberInfo) (int, string) {
+	if len(sched) == 0 && len(plan) == 0 {
 		install(t)
 		// The interpreter declares quiescence after 50 ms without a heartbeat, which a loaded machine can exceed in the middle
 		// of a run. While hook events keep arriving, the recorder therefore adds heartbeats of its own, so that quiescence is
@@ -597,7 +693,13 @@ func execTraced(t *tracer, re *process.RuntimeEnvironment, procs []*process.Proc
 			}
 		}
 	}()
-	div, why := t.replay(re, sched, 3*time.Second)
+	var div int
+	var why string
+	if len(plan) > 0 {
+		div, why = t.replayPlan(plan, 3*time.Second)
+	} else {
+		div, why = t.replay(re, sched, 3*time.Second)
+	}
 	t.releaseAll()
 	close(stopKA)
 	<-done
